@@ -37,6 +37,17 @@ func Root() string {
 	return "/verif"
 }
 
+// OutRoot is where evidence and replays are written: Root(), unless the
+// development aid VERIF_OUT redirects them (seed testing against a copy of the
+// client must not overwrite the evidence of /repo; registered commands never
+// set it).
+func OutRoot() string {
+	if r := os.Getenv("VERIF_OUT"); r != "" {
+		return r
+	}
+	return Root()
+}
+
 type knownFile struct {
 	Findings []struct {
 		Property  string `json:"property"`
@@ -226,7 +237,7 @@ func (r *Run) Violation(sig, what string, replay any) {
 		return
 	}
 	r.replayN++
-	dir := filepath.Join(Root(), "replays")
+	dir := filepath.Join(OutRoot(), "replays")
 	_ = os.MkdirAll(dir, 0o755)
 	name := fmt.Sprintf("%s-%s-seed%d-%d.json", r.ID, r.Tier, r.Seed, r.replayN)
 	path := filepath.Join(dir, name)
@@ -320,7 +331,7 @@ func (r *Run) Finish(minNontrivial int) {
 	broken := r.broken
 	r.mu.Unlock()
 
-	dir := filepath.Join(Root(), "evidence")
+	dir := filepath.Join(OutRoot(), "evidence")
 	_ = os.MkdirAll(dir, 0o755)
 	b, err := json.MarshalIndent(doc, "", " ")
 	if err != nil {
